@@ -2,6 +2,7 @@ import RV.C05.Lemmas
 import RV.C05.StrLemmas
 import RV.C05.IriLemmas
 import RV.C05.Tables
+import RV.C05.Utf8Lemmas
 /-
   C05 — property statements (each first as `def Statement_… : Prop`, at full strength) and theorems.
 
@@ -147,5 +148,51 @@ example : showRef (resolve (parseRef "http://example.org/base/doc".toList) (pars
     = "http://example.org/base/c/e".toList := by decide
 example : showRef (resolve (parseRef "http://example.org/base/doc".toList) (parseRef "/../g".toList))
     = "http://example.org/g".toList := by decide
+
+/-! ### input sources: the same characters reach the reader on every route (RV/C05/Utf8.lean) -/
+
+open Utf8 in
+/-- UTF-8 as written by `str.encode`, read by the strict decoder the input sources use: identity on scalar values -/
+def Statement_utf8_decode_encode : Prop :=
+  ∀ (cps : List Nat), (∀ c ∈ cps, Utf8.scalar c = true) → Utf8.decode (Utf8.encode cps) = some cps
+
+/-- the decoder accepts only canonical encodings of scalar values (no overlong forms, no surrogates, nothing above
+    10FFFF, no truncated or stray bytes): whatever it accepts is exactly what `encode` writes for the result -/
+def Statement_utf8_encode_decode : Prop :=
+  ∀ (bs cps : List Nat), Utf8.decode bs = some cps →
+    Utf8.encode cps = bs ∧ ∀ c ∈ cps, Utf8.scalar c = true
+
+/-- Whichever way the document is handed over — the str itself, its UTF-8 bytes as data=, or a byte stream
+    (file=, path, BytesIO) — the reader of each syntax receives the same code points: the document itself for
+    N-Triples / N-Quads (a leading U+FEFF included), the document minus one leading U+FEFF for Turtle / TriG. -/
+def Statement_input_source_equiv : Prop :=
+  ∀ (sx : Utf8.Syntax) (r : Utf8.Route) (doc : List Nat), (∀ c ∈ doc, Utf8.scalar c = true) →
+    Utf8.handed sx r doc = some (if Utf8.turtleFamily sx then Utf8.skipBom doc else doc)
+
+theorem utf8_decode_encode : Statement_utf8_decode_encode := Utf8.decode_encode
+
+theorem utf8_encode_decode : Statement_utf8_encode_decode := Utf8.encode_decode
+
+theorem input_source_equiv : Statement_input_source_equiv := by
+  intro sx r doc h
+  have hd := Utf8.decode_encode doc h
+  cases r <;> cases hsx : Utf8.turtleFamily sx <;> simp [Utf8.handed, hd, hsx]
+
+/-- finding C05-F14: before the fix the same bytes (BOM, then `<`) reached the Turtle reader with the mark when given
+    as data=bytes and without it when given as file= -/
+theorem bom_routes_differed_before_F14 :
+    Utf8.handedBeforeF14 .turtle .bytes [0xFEFF, 0x3C] ≠ Utf8.handedBeforeF14 .turtle .file [0xFEFF, 0x3C] := by
+  decide
+
+/-- non-vacuity / boundaries: the encodings of U+007F, U+0080, U+07FF, U+0800, U+FFFF, U+10000, U+10FFFF, and what
+    the decoder refuses (overlong C0 80, E0 80 80, surrogate ED A0 80, F4 90 80 80 > 10FFFF, truncation, stray 80) -/
+example : Utf8.encode [0x7F, 0x80, 0x7FF, 0x800, 0xFFFF, 0x10000, 0x10FFFF] =
+    [0x7F, 0xC2, 0x80, 0xDF, 0xBF, 0xE0, 0xA0, 0x80, 0xEF, 0xBF, 0xBF, 0xF0, 0x90, 0x80, 0x80, 0xF4, 0x8F, 0xBF, 0xBF] := by
+  decide
+example : [[0xC0, 0x80], [0xE0, 0x80, 0x80], [0xED, 0xA0, 0x80], [0xF4, 0x90, 0x80, 0x80], [0xE2, 0x82], [0x80],
+    [0xF0, 0x80, 0x80, 0x80], [0xC1, 0xBF], [0xF5, 0x80, 0x80, 0x80], [256]].all (fun bs => Utf8.decode bs == none) = true := by
+  decide
+example : Utf8.handed .nt .file [0xFEFF, 0x3C] = some [0xFEFF, 0x3C] ∧
+    Utf8.handed .trig .bytes [0xFEFF, 0x3C] = some [0x3C] := by decide
 
 end RV.C05
